@@ -415,6 +415,9 @@ def main(argv=None):
     ap.add_argument('--seed', type=int, default=int(os.environ.get('VERIF_SEED', '0') or 0))
     a = ap.parse_args(argv)
     if a.replay:
+        Hm = load_harness(a.prop)
+        if hasattr(Hm, 'cmd_replay'):
+            return Hm.cmd_replay(a.replay, a.json)
         return cmd_replay(a.prop, a.replay, a.json)
     if a.worker:
         return cmd_worker(a.prop, json.loads(a.worker), a.out, a.seed, a.tier)
